@@ -119,8 +119,16 @@ def _short(env):
 
 def check_tree(ctx, builds, tree, is_bool, pos, rng, kind, keyhint):
     pts = points(rng, 7)
-    for style in ("minimal", "redundant"):
-        text = mexpr.to_text(tree, rng, 0.0 if style == "minimal" else 0.35)
+    for style in ("minimal", "redundant", "bare-sign"):
+        if style == "bare-sign":
+            # a sign directly after a binary operator (a / -b * c): accepted by the grammar, the sign binds tighter
+            # than * and / and looser than ^
+            text = mexpr.to_text(tree, rng, 0.0, p_bare_sign=1.0)
+            if text == mexpr.to_text(tree):
+                continue
+            ctx.cover("text-style:sign-directly-after-binary-operator")
+        else:
+            text = mexpr.to_text(tree, rng, 0.0 if style == "minimal" else 0.35)
         src, extract = embed(pos, text, is_bool)
         for label, parse in builds:
             case = {"kind": kind, "tree": tree, "is_bool": is_bool, "pos": pos, "text": text,
